@@ -13,7 +13,11 @@ C08 (vf/engines/timermodel.py), adapted to Clock's run-within-advance semantics:
     operation; cancel/reset/delay raise AlreadyCalled/AlreadyCancelled exactly as the model says.
 False-alarm guards: literal "nondecreasing scheduled time" is only asserted for calls that no
 negative delay() moved before the last run time (a negative delay legitimately schedules into the
-past); callbacks never raise (Clock.advance propagates exceptions; outside the statement).
+past).  Calls may raise: Clock.advance() propagates the exception (documented test-double behaviour)
+and thereby ends that advance early; what it leaves behind is not required to have run in it (the
+statement is silent; unjudged), but every other clause keeps applying: exactly once, never early,
+min-property and creation order when it does run, getDelayedCalls(), and nothing due survives the next
+advance that is not aborted.
 """
 from vf.engines import explore, timermodel as tm
 
@@ -30,7 +34,8 @@ SHARDS = {"quick": 4, "thorough": 16}
 FLOORS = {"run_checks": 2000, "pending_checks": 10000, "end_of_step_checks": 2000, "eff_cancel": 500, "eff_reset": 200,
           "eff_delay": 200, "eff_negative_delay": 50, "op_call_in": 200, "refused_AlreadyCalled": 50,
           "refused_AlreadyCancelled": 50, "ties_at_run": 100, "creation_order_ties": 100, "monotonic_checks": 2000,
-          "exempt_past_runs": 10, "runs_created_in_same_advance": 50, "explore_states": 500}
+          "exempt_past_runs": 10, "runs_created_in_same_advance": 50, "explore_states": 500,
+          "raised_calls": 500, "advances_aborted_by_raising_call": 500}
 READY = True
 
 
@@ -54,7 +59,7 @@ def run_history(ctx, history, max_calls):
 
 
 BODIES = [[], [["cancel", ["a", 1]]], [["reset", ["a", 0], 0]], [["delay", ["a", 2], -2 * tm.U]], [["call", 0, []]],
-          [["call", tm.U, []]], [["reset", "self", tm.U]]]
+          [["call", tm.U, []]], [["reset", "self", tm.U]], [["raise"]]]
 
 
 class World:
@@ -63,12 +68,13 @@ class World:
 
         self.t = tm.ClockTarget(Clock())
         self.run = Run(ctx, self.t, 3, history=[])
+        self.nbodies = len(BODIES) - (1 if ctx.quick else 0)  # the raising body is enumerated in the thorough tier only
 
     def actions(self):
         n = len(self.run.recs)
         acts = [("adv", a) for a in (0, 1, 2)]
         if n < 3:
-            acts += [("call", d, b) for d in (0, 1, 2) for b in range(len(BODIES))]
+            acts += [("call", d, b) for d in (0, 1, 2) for b in range(self.nbodies)]
         for i in range(n):
             acts.append(("cancel", i))
             acts += [("reset", i, d) for d in (0, 2)]
